@@ -137,6 +137,22 @@ func Mem(c ClientCfg) (uhppote.IUHPPOTE, *memdrv.Driver) {
 }
 
 // MemWith is Mem with a caller-owned device slice (C17 mutates it afterwards).
+// MemConcurrent is Mem with a driver that acknowledges every request by itself (same header, 'succeeded'), so that several
+// goroutines can share the client.
+func MemConcurrent(c ClientCfg) (uhppote.IUHPPOTE, *memdrv.Driver) {
+	u, d := Mem(c)
+	d.Auto = func(req []byte) []byte {
+		if len(req) != 64 {
+			return nil
+		}
+		b := make([]byte, 64)
+		copy(b[:8], req[:8])
+		b[8] = 1
+		return b
+	}
+	return u, d
+}
+
 func MemWith(c ClientCfg, devices []uhppote.Device) (uhppote.IUHPPOTE, *memdrv.Driver) {
 	ev.MuteLibraryStdout()
 	d := memdrv.New()
